@@ -90,6 +90,11 @@ def scenarios(ctx):
     S("reader-check", "read", {"op": "reader", "cache": "<C>", "key": "k", "bufs": [4]}, have, key="k", old=old_k, data=stored)
     S("copy", "copy", {"op": "copy", "cache": "<C>", "key": "k", "to": "<DEST>"}, have, key="k", old=old_k, data=stored)
     S("metadata", "metadata", {"op": "metadata", "cache": "<C>", "key": "k"}, have, key="k", old=old_k)
+    # a bucket far larger than one read(2) chunk: 150 older records of the key, then the current one
+    longhist = warm + [{"op": "writer", "cache": "<C>", "key": "k", "opts": {"time": str(100 + g), "metadata": {"gen": g, "pad": "h" * 150}},
+                        "chunks": [ctx.data(b"generation %d" % g)]} for g in range(150)] + [have[-1]]
+    S("metadata-long-bucket", "metadata", {"op": "metadata", "cache": "<C>", "key": "k"}, longhist, key="k", old=old_k)
+    S("read-long-bucket", "read", {"op": "read", "cache": "<C>", "key": "k"}, longhist, key="k", old=old_k, data=stored)
     S("list", "list", {"op": "list", "cache": "<C>"}, have, key="k", old=old_k)
     S("remove", "remove", {"op": "remove", "cache": "<C>", "key": "k"}, have, key="k", old=old_k)
     S("remove_hash", "remove_hash", {"op": "remove_hash", "cache": "<C>", "sri": ref.sri("sha256", b"bystander one")},
